@@ -13,6 +13,31 @@ SX = C.to_sx
 # 1 (default): model and oracle follow the repaired code (fix-F1..F4); 0: the code before the repairs
 FIXED = int(os.environ.get("VERIF_C05_FIXED", "1"))
 os.environ["VERIF_C05_FIXED"] = str(FIXED)      # the OCaml driver reads it
+# 0 (default): the code without fix-F5 (a name ending in a non-ASCII blank is finding C05-F5); 1: repaired code
+FIXED5 = int(os.environ.get("VERIF_C05_FIXED_F5", "1"))
+os.environ["VERIF_C05_FIXED_F5"] = str(FIXED5)
+
+# One representative of every kind of non-ASCII code point of the schema text class ("printable ASCII except
+# , [ ] { } plus every code point above 127") that some API treats specially.  Below 128 nothing else is in the
+# class (VT, FF, FS, GS, RS, DEL are refused by the compliance check and VT/FF/FS.. by XML itself).
+EXOTIC_LINE = ["\u0085", "\u2028", "\u2029"]                       # str.splitlines boundaries, str.isspace
+EXOTIC_BLANK = ["\u00a0", "\u1680", "\u2003", "\u202f", "\u205f", "\u3000"]   # category Zs: str.strip, regex \s
+EXOTIC_OTHER = ["\u200b", "\u200c", "\u200d", "\u2060", "\ufeff",       # zero width / BOM
+                "\u0301", "\u20dd",                                     # combining marks
+                "\U0001F600", "\U0001D11E", "\U00010348",               # astral
+                "\u200e", "\u200f", "\u202a", "\u202e", "\u2066", "\u2069",   # bidi controls
+                "\u00ad", "\u0080", "\u009f", "\ufffd", "\ue000"]       # soft hyphen, C1 controls, U+FFFD, private use
+EXOTIC_WS = EXOTIC_LINE + EXOTIC_BLANK                               # what str.strip() removes at the ends
+EXOTIC = EXOTIC_LINE * 3 + EXOTIC_BLANK + EXOTIC_OTHER               # line separators weighted up
+
+
+def exoticise(rng, s, outer_ok=True):
+    """Insert one exotic code point into s: interior (2/3) or at an end (1/3)."""
+    c = rng.choice(EXOTIC)
+    if len(s) >= 2 and (not outer_ok or rng.random() < 0.67):
+        k = rng.randint(1, len(s) - 1)
+        return s[:k] + c + s[k:]
+    return (c + s) if rng.random() < 0.5 else (s + c)
 
 
 def sx_s(s):
@@ -224,6 +249,40 @@ def impl_tsv_write(strip, name, attrs, desc):
     w._write_tag_entry(StubEntry(name, attrs, desc), None, 1)
     r = w._tag_rows[0]
     return [r[k.hed_id], r[k.name], r[k.attributes], r[k.description]]
+
+
+def impl_open_file_lines(text, path=None):
+    """SchemaLoaderWiki._open_file on a string source (or on the file `path`)."""
+    from hed.schema.schema_io.wiki2schema import SchemaLoaderWiki
+    ld = object.__new__(SchemaLoaderWiki)
+    ld.filename = path
+    ld.schema_as_string = None if path else text
+    return list(ld._open_file())
+
+
+def canon_lines(lines):
+    """Lines as the per-line reader uses them: without the line feed; empty lines at the end do not matter."""
+    out = [x[:-1] if x.endswith("\n") else x for x in lines]
+    while out and out[-1] == "":
+        out.pop()
+    return out
+
+
+def lf_lines(text, keepends=False):
+    """Reference: the lines of a text when a line ends at U+000A and nowhere else."""
+    parts = text.split("\n")
+    if not keepends:
+        return parts
+    out = [x + "\n" for x in parts[:-1]]
+    return out + ([parts[-1]] if parts[-1] else [])
+
+
+def impl_xml_name(text):
+    import xml.etree.ElementTree as ET
+    impl_xml_desc("x")      # creates the stub loader
+    el = ET.Element("node")
+    ET.SubElement(el, "name").text = text
+    return _xml_loader._get_element_tag_value(el)
 
 
 _xml_loader = None
@@ -572,6 +631,8 @@ def g_desc(rng, wide=False):
     if rng.random() < 0.08:
         k = rng.randint(0, len(s))
         s = s[:k] + " extend here " + s[k:]       # inside the class since the repair of C05-F3
+    if rng.random() < 0.3:
+        s = exoticise(rng, s)
     if not wide:
         s = s.strip() or "d"
         if not FIXED:
